@@ -46,11 +46,12 @@ RECURSIVE PTaggedLoop(_, _, _) \* taggedstruct loop
 RECURSIVE PUnknown(_, _, _)
 RECURSIVE PUnknownTS(_, _)
 
+RECURSIVE SkipComments(_)
+SkipComments(X) == IF X.pos <= NTok /\ Tok(X.pos).t = "cmt" THEN SkipComments([X EXCEPT !.pos = @ + 1, !.last = Tok(X.pos).line]) ELSE X
+
 \* skip comments (get_token), then get_next_tag_or_comment; v = [k |-> "none"] or [k |-> "tag", ...]
 TagAhead(S) ==
-    LET RECURSIVE skip(_)
-        skip(X) == IF X.pos <= NTok /\ Tok(X.pos).t = "cmt" THEN skip([X EXCEPT !.pos = @ + 1, !.last = Tok(X.pos).line]) ELSE X
-        S1 == skip(S)
+    LET S1 == SkipComments(S)
         n == NextTagOrComment(S1)
     IN IF n.ok /\ n.v.k = "tag" THEN n ELSE Ok([(IF n.ok THEN n.S ELSE n.S) EXCEPT !.pos = S.pos], [k |-> "none"])
 
@@ -151,8 +152,8 @@ PUnknown(S, isBlock, acc) ==
                                                     \* this type cannot occur here (the tokenizer resolves them)
 
 PUnknownTS(S, acc) ==
-    LET a == IF acc = <<>> THEN TagAhead(S) ELSE LET n == NextTagOrComment(S) IN
-                                                  IF n.ok /\ n.v.k = "tag" THEN n ELSE Ok([n.S EXCEPT !.pos = S.pos], [k |-> "none"])
+    \* comments in front of and between the items are skipped
+    LET a == TagAhead(S)
     IN IF a.v.k = "none"
        THEN IF a.S.pos <= NTok /\ Tok(a.S.pos).t = "begin" THEN Err(a.S, "InvalidBegin", a.S.last) ELSE Ok(a.S, acc)
        ELSE LET d == PUnknown(a.S, a.v.isBlock, <<>>) IN
@@ -166,7 +167,8 @@ PUnknownTS(S, acc) ==
                            ELSE PUnknownTS(i.S, Append(acc, [k |-> "item", tag |-> a.v.tag, block |-> TRUE, v |-> d.v]))
                  ELSE PUnknownTS(d.S, Append(acc, [k |-> "item", tag |-> a.v.tag, block |-> FALSE, v |-> d.v]))
 
-PUnknownStart(S) ==
+PUnknownStart(S0) ==
+    LET S == SkipComments(S0) IN
     IF S.pos <= NTok /\ Tok(S.pos).t = "id"
     THEN LET g == GetToken(S)
              d == PUnknown(g.S, TRUE, <<>>)
@@ -256,8 +258,9 @@ RECURSIVE TrySpecs(_, _)
 TrySpecs(S, i) ==
     IF i > Len(Specs) THEN [found |-> FALSE, S |-> S]
     ELSE LET r == PItem(Specs[i], S) IN
-         IF r.ok /\ r.S.pos <= NTok /\ Tok(r.S.pos).t = "end"
-         THEN [found |-> TRUE, S |-> r.S, v |-> MakeBlock(r.v), which |-> i]
+         \* (a comment behind the last item does not belong to the content)
+         IF r.ok /\ SkipComments(r.S).pos <= NTok /\ Tok(SkipComments(r.S).pos).t = "end"
+         THEN [found |-> TRUE, S |-> SkipComments(r.S), v |-> MakeBlock(r.v), which |-> i]
          ELSE TrySpecs([r.S EXCEPT !.pos = S.pos], i + 1)
 
 \* the result for the IF_DATA content in Doc: [ok, valid, v, diags] or [ok |-> FALSE, e]
